@@ -569,6 +569,10 @@ func pad(c ugo.Call, left bool) (ugo.Object, error) {
 		return ugo.Undefined,
 			ugo.NewArgumentTypeError("2nd", "int", c.Get(1).TypeName())
 	}
+	if padLen <= len(s) {
+		// also covers a negative padLen whose difference would overflow
+		return ugo.String(s), nil
+	}
 	diff := padLen - len(s)
 	if diff <= 0 {
 		return ugo.String(s), nil
@@ -583,8 +587,12 @@ func pad(c ugo.Call, left bool) (ugo.Object, error) {
 	if r <= 0 {
 		return ugo.String(s), nil
 	}
+	// A size that cannot even be attempted makes the runtime panic, report it
+	// as an error instead.
 	var sb strings.Builder
-	sb.Grow(padLen)
+	if err := catchTooLarge(func() { sb.Grow(padLen) }); err != nil {
+		return ugo.Undefined, err
+	}
 	if left {
 		sb.WriteString(strings.Repeat(padWith, r)[:diff])
 		sb.WriteString(s)
@@ -595,12 +603,30 @@ func pad(c ugo.Call, left bool) (ugo.Object, error) {
 	return ugo.String(sb.String()), nil
 }
 
-func repeatFunc(s string, count int) ugo.Object {
+func repeatFunc(s string, count int) (ret ugo.Object) {
 	// if n is negative strings.Repeat function panics
 	if count < 0 {
 		return ugo.String("")
 	}
-	return ugo.String(strings.Repeat(s, count))
+	// it also panics if the result cannot be allocated at all
+	if err := catchTooLarge(func() {
+		ret = ugo.String(strings.Repeat(s, count))
+	}); err != nil {
+		return err
+	}
+	return ret
+}
+
+// catchTooLarge runs fn and converts the panic raised for a size that is out of
+// range (length overflow, makeslice: len out of range) to an error.
+func catchTooLarge(fn func()) (err *ugo.Error) {
+	defer func() {
+		if r := recover(); r != nil {
+			err = ugo.ErrIndexOutOfBounds.NewError("size is too large")
+		}
+	}()
+	fn()
+	return nil
 }
 
 func replaceFunc(c ugo.Call) (ugo.Object, error) {
